@@ -243,6 +243,20 @@ def judge_single(call, chk, probe=None):
     for i, r in enumerate(evals[: E['npass']]):
         chk('passes/iteration-keyword', r['iteration'] == i + 1, {'pass': i + 1, 'got': r['iteration']})
 
+    if call.get('scripted'):
+        # warning-raising statements: turned into errors exactly under errors='raise' with catch_first_error
+        strict = opts['errors'] == 'raise' and bool(opts['catch_first_error'])
+        for r in evals[: E['npass']]:
+            if r.get('act') in ('npwarn', 'pywarn'):
+                raised_warning = r['exc'] in ('RuntimeWarning',)
+                P('warning-statement:' + ('strict' if strict else 'lenient'))
+                chk('warning-statement/error-iff-raise-and-catch_first_error', raised_warning == strict, {'errors': opts['errors'], 'catch_first_error': opts['catch_first_error'], 'raised': r['exc'], 'act': r.get('act')})
+                if strict and r.get('act') == 'npwarn' and r.get('npwarn_j') is not None:
+                    j = r['npwarn_j']
+                    chk('warning-statement/does-not-store', _eq(r['post_endo'][j], r['pre'][j]), {'before': r['pre'][j], 'after': r['post_endo'][j]})
+                if not strict and r.get('act') == 'npwarn' and r.get('npwarn_j') is not None:
+                    j = r['npwarn_j']
+                    chk('warning-statement/stores-without-catch_first_error', not math.isfinite(r['post_endo'][j]), {'after': r['post_endo'][j]})
     if call.get('scripted') and evals and opts['errors'] != 'replace':
         last = evals[-1]
         ok = all(_eq(float(post[nm][tn]), v) for nm, v in zip(endo, last['post_endo']))
